@@ -63,13 +63,13 @@ def initRow (F Finit : Residual) (I : Inst) (X : Vec) (m e : Nat) : Rat := (init
     is invisible: every member's residual sees that member's own parameter values -/
 theorem C01_parameters_member_own (I : Inst) (hw : I.WF) (m : Nat) (hm : m < I.E) :
     (I.mem m).par = I.pvals m :=
-  effPar_eq I.E I.npar I.pvals m hm (hw.par_len m hm)
+  effPar_eq I.E I.npar I.dyn I.pvals m hm (hw.par_len m hm)
 
 /-- the classification on the unrepaired tree (finding F1) is NOT invisible: with parameter
     values `(1, 2)` over two members, member 1 sees `1` -/
 theorem C01_parameters_legacy_witness :
     effParLegacy 2 1 (fun m => if m = 0 then [1] else [2]) 1 = [1]
-    ∧ effPar 2 1 (fun m => if m = 0 then [1] else [2]) 1 = [2]
+    ∧ effPar 2 1 (fun _ => false) (fun m => if m = 0 then [1] else [2]) 1 = [2]
     ∧ effParLegacy 2 1 (fun m => if m = 0 then [0] else [5]) 1 = [0] := by
   refine ⟨?_, ?_, ?_⟩ <;> decide +kernel
 
@@ -352,6 +352,7 @@ def I0 : Inst where
   didx := fun m _ => 6 + m * 4
   npar := 1
   pvals := fun m => [(m : Rat) + 1]
+  dyn := fun _ => false
   cin := fun m _ => [(0, 1), (3, 4 + (m : Rat))]
   cmode := fun _ => 0
   hist := fun _ _ => none
